@@ -59,17 +59,20 @@ RULE = {
     )
 }
 ASSUMPTIONS = [
-    "message timestamps are either fresh (= arrival time) or older than the maximum age (lags strictly inside (0, max age) are "
-    "not generated: timestamp age and arrival silence legitimately differ there)",
+    "message timestamps are fresh (= arrival time), late by 9.9 s (inside the maximum age at arrival: such a message counts as "
+    "healthy, and silence is measured from its arrival, which is what the tracker does and all the safety clause demands) or "
+    "older than the maximum age",
     "virtual time: data timers and blocking deadlines elapse exactly",
 ]
 MIN_LABELS = {"C16": {"pool_tracker": 0.1, "silence_ge_max_age": 0.1, "faulty_between_healthy": 0.07, "two_consecutive_failures": 0.15,
                       "uncertain_seen": 0.3}}
 
 MAX_AGE = 10.0
-BAT_KINDS = ["ok"] * 12 + ["state", "relay", "critical", "warning", "nancap", "stale"]
-INV_KINDS = ["ok"] * 9 + ["state", "critical", "warning", "stale"]
-HEALTHY = {"ok", "warning"}
+BAT_KINDS = ["ok"] * 12 + ["state", "relay", "critical", "warning", "nancap", "stale", "late", "late"]
+INV_KINDS = ["ok"] * 9 + ["state", "critical", "warning", "stale", "late"]
+# "late": healthy and stamped 9.9 s before its arrival, i.e. still inside the maximum age of 10 s when it arrives
+HEALTHY = {"ok", "warning", "late"}
+LATE = 9.9
 
 
 def strategy(tier: str, pid: str = "C16") -> st.SearchStrategy[Any]:
@@ -101,6 +104,11 @@ def strategy(tier: str, pid: str = "C16") -> st.SearchStrategy[Any]:
         [["bat", "relay"], ["bat", "ok"], ["res", "failed"], ["adv", 1.1], ["inv", "ok"]],
         [["res", "failed"], ["adv", 1.1], ["inv", "ok"], ["res", "none"], ["res", "failed"], ["adv", 1.9], ["bat", "ok"],
          ["adv", 0.2], ["bat", "ok"]],
+        # a steadily lagging stream: a late message (inside the maximum age), then one that is too old although its
+        # timestamp is newer than the previous one's
+        [["bat", "late"], ["adv", 0.9], ["bat", "stale"], ["adv", 0.1], ["inv", "ok"]],
+        [["inv", "late"], ["adv", 2.0], ["inv", "stale"], ["adv", 1.0], ["bat", "ok"]],
+        [["bat", "late"], ["adv", 9.9], ["inv", "ok"], ["adv", 0.2], ["inv", "ok"]],
     ]
     phrase = st.sampled_from(phrases)
     nops = 30 if tier == "quick" else 80
@@ -139,7 +147,7 @@ def _bat_msg(kind: str, now: datetime, cid: int = 9) -> Any:
         kw["errors"] = [BatteryError(code=BatteryErrorCode.UNSPECIFIED, level=ErrorLevel.WARN, message="generated")]
     elif kind == "nancap":
         kw["capacity"] = math.nan
-    ts = now - timedelta(seconds=MAX_AGE + 0.5) if kind == "stale" else now
+    ts = now - timedelta(seconds=MAX_AGE + 0.5) if kind == "stale" else now - timedelta(seconds=LATE) if kind == "late" else now
     return fakes.battery_data(cid, ts, **kw)
 
 
@@ -151,7 +159,7 @@ def _inv_msg(kind: str, now: datetime, cid: int = 8) -> Any:
         kw["errors"] = [InverterError(code=InverterErrorCode.UNSPECIFIED, level=ErrorLevel.CRITICAL, message="generated")]
     elif kind == "warning":
         kw["errors"] = [InverterError(code=InverterErrorCode.UNSPECIFIED, level=ErrorLevel.WARN, message="generated")]
-    ts = now - timedelta(seconds=MAX_AGE + 0.5) if kind == "stale" else now
+    ts = now - timedelta(seconds=MAX_AGE + 0.5) if kind == "stale" else now - timedelta(seconds=LATE) if kind == "late" else now
     return fakes.inverter_data(cid, ts, **kw)
 
 
